@@ -150,7 +150,8 @@ func VerifC16Overlap() {
 func VerifC16Tiles() {
 	var ts []*object.TileXYZ
 	for i := int64(0); i < 2; i++ {
-		t, err := object.NewTileXYZ(5, vNondetInt64(vN("x", i)), vNondetInt64(vN("y", i)), 25, vNondetInt64(vN("z", i)))
+		// case mix = 1: the second tile is one level finer horizontally and one level coarser vertically
+		t, err := object.NewTileXYZ(5+i*vCase("mix"), vNondetInt64(vN("x", i)), vNondetInt64(vN("y", i)), 25-i*vCase("mix"), vNondetInt64(vN("z", i)))
 		vAssume(err == nil)
 		ts = append(ts, t)
 	}
